@@ -842,7 +842,11 @@ def r16(rr, repo):
         at_physical_end = last in phys or arg in endterm
         if not at_physical_end:
             ok = "rfind(b'\\n')" in arg or 'rfind(b"\\n")' in arg or arg == '0' or arg.startswith('max(0,')       # a position computed from the last newline (or the start of the file when there is none)
-            if ok:
+            uses_rfind = 'rfind(' in arg
+            found = any('rfind(' in k and v is True for k, v in p.pc)          # ... and only when that search FOUND one: rfind() answers -1 otherwise, and `start + (-1) + 1` is the start of the block looked at - inside the record
+            if ok and uses_rfind and not found:
+                rr.ob("the position taken at 'end' is the one after the last delimiter", False, mod, last.node, witness=f'{arg[-80:]} is taken also when the block holds no delimiter (nothing on this path tests what rfind found)', key='end-is-a-record-boundary')
+            elif ok:
                 rr.ob("the position taken at 'end' is the one after the last delimiter", True, mod, last.node, witness=arg[-90:], key='end-is-a-record-boundary')
             else:
                 rr.unresolved("how the position at 'end' is computed was not recognised", mod, last.node, witness=arg[-120:], key='end-is-a-record-boundary')
